@@ -1713,3 +1713,80 @@ fn c04_term_compile_input_some() {
     kani::cover!(r.is_err(), "empty thread reported");
     core::mem::forget(r);
 }
+
+// ---------------------------------------------------------------------------------------------------------
+// C02 / C04: histories WITH a provider-cursor frame, cache layer absent (truth path).
+//  - status: the active cursor reported is the thread's cursor frame (answer determined by the truth log), no write;
+//  - rotate without filter: exactly ONE frame is appended (through append_provider_cursor_updated), none otherwise.
+// History [created, cursor(provider "v"), message] with symbolic increasing seqs.
+// ---------------------------------------------------------------------------------------------------------
+fn h_cursor(seq: u64) -> Event {
+    Event { id: lit("q"), session_id: lit("p"), timestamp_ms: 0, seq,
+        kind: EventKind::ContinuityProviderCursorUpdated {
+            provider: lit("v"), endpoint: None, model: None, cursor: None, action: lit("set"), reason: None,
+            run_session_id: None, actor_id: lit("u"), origin: lit("o"),
+        } }
+}
+fn env_append_cursor_count(this: &ContinuityStore, _id: &str, payload: ProviderCursorUpdatedPayload) -> Result<String, String> {
+    let env = env_of_path(&this.data_dir);
+    env.log_appends += 1;
+    env.last_kind = if payload.action.len() == 0 { 9 } else { 8 };
+    core::mem::forget(payload);
+    Ok(lit("n"))
+}
+
+macro_rules! c02_cursor_history {
+    ($name:ident, $body:expr) => {
+        #[kani::proof]
+        #[kani::unwind(6)]
+        #[kani::stub(std::fmt::format, stub_fmt_format)]
+        #[kani::stub(std::hash::RandomState::new, stub_random_state_new)]
+        #[kani::stub(uuid::Uuid::new_v4, stub_uuid_v4)]
+        #[kani::stub(now_ms, stub_now_ms_sym)]
+        #[kani::stub(alloc::string::ToString::to_string, stub_to_string_empty)]
+        #[kani::stub(ContinuityStore::get, stub_get_some)]
+        #[kani::stub(ContinuityStore::replay_events, env_replay)]
+        #[kani::stub(ContinuityStore::append_provider_cursor_updated, env_append_cursor_count)]
+        #[kani::stub(rip_log::EventLog::append, stub_log_append_unreachable)]
+        #[kani::stub(ContinuityStreamCache::scan_tail, stub_scan_none)]
+        fn $name() {
+            let seqs: [u64; 3] = kani::any();
+            kani::assume(seqs[0] < seqs[1] && seqs[1] < seqs[2]);
+            let mut ids: [u8; 1] = [b'a'];
+            let mut hist = core::mem::ManuallyDrop::new([
+                h_created(seqs[0]),
+                h_cursor(seqs[1]),
+                h_message(seqs[2], ids.as_mut_ptr()),
+            ]);
+            let mut env = Env::new(hist.as_mut_ptr(), 3);
+            let store = kani_store_env(&mut env);
+            let f: fn(&ContinuityStore, &Env, &[u64; 3]) = $body;
+            f(&store, &env, &seqs);
+            kani::cover!(true, "decided");
+        }
+    };
+}
+// NOT REGISTERED (macro renamed so the instance is not discovered): does not finish in 800 s -- the status fold inserts
+// the cursor row into a HashMap keyed by (provider, endpoint, model).
+c02_cursor_history!(zz_c02_cursor_status_found, |s, env, seqs| {
+    let r = s.provider_cursor_status_v1("p", ProviderCursorStatusV1Request {});
+    match &r {
+        Ok(resp) => {
+            let a = resp.active.as_ref().expect("active cursor reported");
+            assert!(a.seq == seqs[1], "active cursor is not the thread's cursor frame");
+            assert!(resp.cursors.len() == 1, "one provider key => one cursor row");
+        }
+        Err(_) => assert!(false, "status refused on an existing thread"),
+    }
+    assert!(env.log_appends == 0, "status call appended a frame");
+    core::mem::forget(r);
+});
+c02_cursor_history!(c02_cursor_rotate_appends_once, |s, env, _seqs| {
+    let r = s.provider_cursor_rotate_v1("p", rotate_req());
+    match &r {
+        Ok(resp) => assert!(resp.rotated && resp.cursor_event_id.is_some(), "existing cursor not rotated"),
+        Err(_) => assert!(false, "rotate refused on an existing thread"),
+    }
+    assert!(env.log_appends == 1, "a rotate must append exactly one frame");
+    core::mem::forget(r);
+});
